@@ -77,6 +77,11 @@ pub fn named_robots() -> Vec<(&'static str, Parameters)> {
         ("fanuc_r2000ib_200r", Parameters::fanuc_r2000ib_200r()),
         ("staubli_rx160", Parameters::staubli_rx160()),
         ("igus_rebel", Parameters::igus_rebel()),
+        ("irb2600_12_165", Parameters::irb2600_12_165()),
+        ("irb4600_60_205", Parameters::irb4600_60_205()),
+        ("staubli_tx40", Parameters::staubli_tx40()),
+        ("staubli_tx2_140", Parameters::staubli_tx2_140()),
+        ("staubli_tx2_160", Parameters::staubli_tx2_160()),
     ]
 }
 
